@@ -27,3 +27,29 @@ From RS Require Import Schedule SchedInv SchedStruct PipelineSched PipelineSched
 Theorem C04_pipeline_result_valid : forall i perm nw, load i perm = Ok nw -> stmt_pipeline_valid nw.
 Proof. exact pipeline_valid_loaded. Qed.
 Print Assumptions C04_pipeline_result_valid.
+
+(** the reported objective is the true value of the returned schedule, on the functional model: (1) every stored tour's
+    cached figures are exact in every schedule reachable by valid-Path histories; (2) the keys of the stored
+    transitions are the vehicle types in every reachable schedule; (3) for every network loaded from a valid instance,
+    the JSON rendered from a schedule satisfying the schedule-level invariants (whose tours start and end at nodes of
+    the network) passes check_C04: the four reported components equal the independent evaluation of the rendered
+    output. For arbitrary network RECORDS the statement is refuted (three independent missing well-formedness facts). *)
+From RS Require Import LoadStmts TourExactFacts Schedule SchedInv SchedStruct SchedListFacts Render RenderStmts SchedExactFacts RenderFacts4.
+Theorem C04_tours_exact_for_all_histories : forall nw, stmt_vreachable_tours_exact nw.
+Proof. exact vreachable_tours_exact. Qed.
+Print Assumptions C04_tours_exact_for_all_histories.
+Theorem C04_transition_keys_are_types : forall nw s, reachable nw s -> TransKeys nw s.
+Proof. exact reachable_trans_keys. Qed.
+Print Assumptions C04_transition_keys_are_types.
+Theorem C04_rendered_objective_truthful :
+  forall nw, net_fine nw -> depots_named nw -> services_listed nw -> dists_finite_b nw = true -> dh_dists_finite_b nw = true ->
+  forall s out, vreachable nw s -> dreachable nw s -> KnownEnds nw s ->
+    render nw s = Ok out -> check_C04 nw out = [].
+Proof. exact render_C04_history. Qed.
+Print Assumptions C04_rendered_objective_truthful.
+Theorem C04_loaded_depots_named : forall i perm nw, load i perm = Ok nw -> depots_named nw.
+Proof. exact load_depots_named. Qed.
+Print Assumptions C04_loaded_depots_named.
+Theorem C04_rendered_unrestricted_refuted : ~ (forall nw, stmt_render_C04 nw).
+Proof. exact render_C04_refuted. Qed.
+Print Assumptions C04_rendered_unrestricted_refuted.
